@@ -827,7 +827,10 @@ class ParserField:
             return no_input if isinstance(no_input, bool) else False
 
         if isinstance(no_input, (str, list, set, tuple)):
-            return options.mode in no_input
+            if options.mode in no_input:
+                return True
+            # not excluded for this mode by no_input: the mode of the field itself still decides
+            no_input = False
 
         if no_input is True:
             return True
@@ -885,7 +888,9 @@ class ParserField:
             return no_output if isinstance(no_output, bool) else False
 
         if isinstance(no_output, (str, list, set, tuple)):
-            return options.mode in no_output
+            if options.mode in no_output:
+                return True
+            no_output = False
 
         if no_output is True:
             return True
